@@ -168,6 +168,54 @@ func genTask(seed uint64, tier string, id int, maxOps int) TaskPlan {
 	return tp
 }
 
+// sharedSteps interleaves operations on /shared/t<id>-<name> into a task.
+func sharedSteps(r *rt.Rand, tp *TaskPlan, n int) {
+	name := func() string {
+		return fmt.Sprintf("/shared/t%d-%s", tp.ID, rt.Pick(r, []string{"a", "b", "c", "a b", "é"}))
+	}
+	seq := 0
+	data := func() []byte {
+		seq++
+		k := rt.Pick(r, []int{0, 1, 10, 100, 3000, 40000})
+		b := make([]byte, k)
+		for i := range b {
+			b[i] = byte('a' + (i+seq+tp.ID)%26)
+		}
+		return b
+	}
+	for i := 0; i < n; i++ {
+		var st Step
+		switch r.Intn(9) {
+		case 0, 1:
+			d := data()
+			a := &APICall{Fn: "Create", Name: name(), Data: d}
+			for rest := len(d); rest > 0 && len(a.Writes) < 4; {
+				k := 1 + r.Intn(rest)
+				a.Writes = append(a.Writes, k)
+				rest -= k
+			}
+			st = Step{API: a}
+		case 2:
+			st = Step{API: &APICall{Fn: "Open", Name: name()}}
+		case 3:
+			st = Step{API: &APICall{Fn: "Stat", Name: name()}}
+		case 4:
+			st = Step{API: &APICall{Fn: "RemoveAll", Name: name()}}
+		case 5:
+			st = Step{API: &APICall{Fn: rt.Pick(r, []string{"Copy", "Move"}), Name: name(), Dest: name(), NoOverwrite: r.Chance(0.3)}}
+		case 6, 7:
+			st = Step{Method: "PUT", Target: canonicalTarget(name()), Body: data(), Chunk: rt.Pick(r, []int{0, 1, 7, 4096, -64})}
+		case 8:
+			st = Step{Method: rt.Pick(r, []string{"GET", "HEAD", "DELETE", "PROPFIND"}), Target: canonicalTarget(name())}
+			if st.Method == "PROPFIND" {
+				st.Headers = [][2]string{{"Depth", "0"}}
+			}
+		}
+		at := r.Intn(len(tp.Steps) + 1)
+		tp.Steps = append(tp.Steps[:at], append([]Step{st}, tp.Steps[at:]...)...)
+	}
+}
+
 // GenC18Conc: N tasks on disjoint subtrees of one shared handler and client.
 func GenC18Conc(seed uint64, tier string) *Plan {
 	r := rt.NewRand(seed)
@@ -183,6 +231,13 @@ func GenC18Conc(seed uint64, tier string) *Plan {
 	}
 	for i := 0; i < n; i++ {
 		p.Tasks = append(p.Tasks, genTask(rt.Mix(seed, uint64(i), 0x7a5c), tier, i, maxOps))
+	}
+	if r.Chance(0.4) {
+		// the tasks also work on members of ONE shared collection, each on its
+		// own names (/shared/t<i>-...): disjoint resources, same parent
+		for i := range p.Tasks {
+			sharedSteps(r, &p.Tasks[i], r.Range(3, 10))
+		}
 	}
 	p.SchedSeed = r.Uint64()
 	p.Slots = rt.Pick(r, []int{1, 2, 4, 16, 64})
